@@ -148,6 +148,10 @@ impl GhostStore {
             calls: core::cell::Cell::new(0),
         }
     }
+    /// a store holding nothing (concrete maps), for the concrete-history obligations
+    pub fn empty() -> Self {
+        GhostStore { docs: UnsafeCell::new(BTreeMap::new()), tombs: UnsafeCell::new(BTreeMap::new()), calls: core::cell::Cell::new(0) }
+    }
     #[allow(clippy::mut_from_ref)]
     pub fn d(&self) -> &mut BTreeMap<Key, u64> {
         unsafe { &mut *self.docs.get() }
